@@ -334,6 +334,18 @@ func c16R3(ic *IC, r *Report) {
 	stop := map[string]bool{"Interpreter.gta": true, "Interpreter.gtaRetry": true, "Interpreter.cfg": true, "Interpreter.run": true, "genRun": true, "genGlobalVars": true, "Interpreter.ast": true, "Interpreter.parse": true, "Interpreter.resizeFrame": true}
 	seen := map[*types.Func]bool{is.Obj: true}
 	q := []*types.Func{is.Obj}
+	// the exported entry points taking a path read their file the same way (EvalPath,
+	// CompilePath and their context variants are siblings)
+	for _, name := range sortedKeys(ic.F) {
+		fi := ic.F[name]
+		if fi.Obj != nil && fi.Decl.Recv != nil && strings.HasPrefix(name, "Interpreter.") && fi.Decl.Name.IsExported() && strings.Contains(fi.Decl.Name.Name, "Path") && !seen[fi.Obj] {
+			seen[fi.Obj] = true
+			q = append(q, fi.Obj)
+		}
+	}
+	for _, s := range []string{"Interpreter.compileSrc", "Interpreter.eval", "Interpreter.Execute", "Interpreter.stop", "Interpreter.Eval", "Interpreter.Compile"} {
+		stop[s] = true
+	}
 	var fns []*FuncInfo
 	for len(q) > 0 {
 		f := q[0]
